@@ -315,8 +315,8 @@ def _get_bus_id_caller(bus):
 
     """
 
-    if np.array(bus.idx.v).dtype == object:
-        return lambda x: bus.idx2uid(x) + 1
+    if any(isinstance(item, str) for item in bus.idx.v):
+        return lambda x: np.array(bus.idx2uid(x)) + 1
     else:
         return lambda x: x
 
